@@ -80,12 +80,17 @@ class Param:
             np.fill_diagonal(full, rng.uniform(0.6, 1.8, n) * rng.choice([-1, 1], n))
             self.p0 = full  # full array: entries outside the triangle are masked by the class
             mask = (lambda a: np.tril(a)) if lower else (lambda a: np.triu(a))
+            # the factor is handed over as an array with factor_is_lower, or as a TriangularMatrix object (factor_is_lower
+            # is then documented to be ignored and left at its default, which may disagree with factor.lower)
+            as_object = bool(rng.integers(0, 2))
             if cls == "tri_pd":
-                self.build = lambda p: mm.TriangularFactoredPositiveDefiniteMatrix(np.array(p), factor_is_lower=lower)
+                self.build = (lambda p: mm.TriangularFactoredPositiveDefiniteMatrix(mm.TriangularMatrix(np.array(p), lower=lower))) if as_object \
+                    else (lambda p: mm.TriangularFactoredPositiveDefiniteMatrix(np.array(p), factor_is_lower=lower))
             else:
-                self.build = lambda p: mm.TriangularFactoredDefiniteMatrix(np.array(p), sign=sign, factor_is_lower=lower)
+                self.build = (lambda p: mm.TriangularFactoredDefiniteMatrix(mm.TriangularMatrix(np.array(p), lower=lower), sign=sign)) if as_object \
+                    else (lambda p: mm.TriangularFactoredDefiniteMatrix(np.array(p), sign=sign, factor_is_lower=lower))
             self.dense = lambda p: sign * mask(p) @ mask(p).T
-            self.opts = [lower, sign]
+            self.opts = [lower, sign, "factor-object" if as_object else "factor-array"]
         elif cls in ("dense_def", "dense_pd"):
             posdef = True if cls == "dense_pd" else bool(rng.integers(0, 2))
             sg = 1 if posdef else -1
@@ -330,6 +335,25 @@ def run_case(case, obs) -> None:
                 obs.violation(f"{which}:asymmetric:{cname}", f"{cname}.{which} is not symmetric for a symmetric parameter")
         if prm.space == "scalar" and np.ndim(g) != 0:
             obs.violation(f"{which}:structure:{cname}", f"{cname}.{which} has ndim {np.ndim(g)} for a scalar parameter")
+    # the SAME vector object, updated in place between two requests (what the integrators do with state.mom while the
+    # metric object stays cached): the second gradient must be the one for the vector's current contents
+    vobj = v.copy()
+    m2 = prm.build(prm.p0)
+    _ = m2.grad_quadratic_form_inv(vobj)
+    vobj *= 0.5
+    vobj += rng.standard_normal(n) * 0.3
+    g2 = m2.grad_quadratic_form_inv(vobj)
+    vnow = vobj.copy()
+    f2b = lambda p: float(vnow @ np.linalg.solve(prm.dense(p), vnow))  # noqa: E731
+    obs.count("inplace_vector_checks")
+    try:
+        worst2 = max((abs(_inner(g2, d) - fd_dir(f2b, prm.p0, d)) / max(1.0, abs(fd_dir(f2b, prm.p0, d))) for d in prm.basis()), default=0.0)
+    except StructureError:
+        worst2 = 0.0  # structure already judged above
+    if not np.isfinite(worst2) or worst2 > TOL:
+        obs.violation(f"grad_quadratic_form_inv:mismatch:{tag}:vector-updated-in-place",
+                      f"{cname}.grad_quadratic_form_inv called twice with the same vector object, updated in place in between: the second "
+                      f"result differs from finite differences for the current vector by {worst2:.3e}; options {prm.opts}, size {n}")
     nontrivial = not (case["cls"] in ("scaled", "pos_scaled") and n == 1)
     if nontrivial:
         obs.token(case["cls"], prm.opts, "n1" if n == 1 else ("n2-3" if n <= 3 else "n4+"), gap)
